@@ -662,6 +662,24 @@ func newDBM(g *Graph, f Facts, assumed []assumedFact) *dbm {
 	for _, a := range assumed {
 		d.addLE(a.a, a.ak, a.b, a.bk)
 	}
+	// x != c with c <= x known  =>  c+1 <= x   (e.g. len(h) != 0 => len(h) >= 1); likewise x <= c => x <= c-1
+	for atom, ra := range f.rel {
+		if v, ok := f.m[atom]; !ok || v || ra.Op != token.EQL {
+			continue
+		}
+		xt, xk, ok1 := d.term(ra.X)
+		yt, yk, ok2 := d.term(ra.Y)
+		if !ok1 || !ok2 {
+			continue
+		}
+		// x + xk != y + yk
+		if d.le(xt, xk, yt, yk) {
+			d.addLE(xt, xk+1, yt, yk)
+		}
+		if d.le(yt, yk, xt, xk) {
+			d.addLE(yt, yk+1, xt, xk)
+		}
+	}
 	return d
 }
 
